@@ -674,6 +674,13 @@ class Machine:
         if c.startswith('b"'): return Ref(Cell(VecV(list(_unescape_bytes(c[1:])))))
         if c.startswith("'"): return ord(_unescape('"' + c[1:-1] + '"'))
         if c.startswith('ZeroSized: '): return self.zst(fr, c[len('ZeroSized: '):])
+        ma = re.match(r'^\{(alloc\d+): (&+)', c)
+        if ma:
+            nm = self.prog.allocs.get((fr.item.crate, ma.group(1)))
+            if nm is None: raise Unsupported('constant allocation ' + c)
+            v = Agg('static:' + nm, [])
+            for _ in ma.group(2): v = Ref(Cell(v))
+            return v
         mg = re.match(r'^<(.+) as (.+)>::([A-Z_0-9]+)$', c)
         if mg:
             ty = mg.group(1)
